@@ -283,3 +283,17 @@ func stableWrap(f func([]Val) Val) func([]Val) Val {
 		return r
 	}
 }
+
+// nilTwin: a zero-length argument is tried both as a nil slice and as an empty non-nil slice (Go callers pass either);
+// the two observations must be equal, otherwise the op answers "not stable".  run must not depend on earlier runs.
+func nilTwin(label string, data []byte, run func(d []byte) Val) Val {
+	if len(data) != 0 {
+		return run(data)
+	}
+	rNil := run(nil)
+	rEmpty := run([]byte{})
+	if !valEq(rNil, rEmpty) {
+		noteUnstable("%s: a nil and an empty non-nil slice argument behave differently: %s vs %s", label, valText(rNil), valText(rEmpty))
+	}
+	return rEmpty
+}
